@@ -451,3 +451,32 @@ func spec_E() int            { panic("spec") }
 //@ requires fetched >= 0
 //@ loop 0: invariant p != nil && REP(p) && CUR(p) && p.peekCount <= 1 && SLOT1(p) && decl != nil && p.lex == before(p.lex)
 //@ loop 0: decreases spec_E() + 2 - (fetched - p.peekCount)
+
+// ---------------------------------------------------------------------------------------------
+// C11 / C04 / C12: from the identifier table and the rule list to the grammar the table construction works on.
+// Every grammar symbol carries the name, token code and tag of its identifier (the end marker has code -1); a
+// terminal that has a precedence entry gets that entry's level and its associativity (%left -> LEFT, %right ->
+// RIGHT, %nonassoc -> NONE), every other symbol has none; grammar rule k+1 is rule k of the file, in file order
+// (rule 0 is S' -> S), built from the symbols of the same names, with the precedence symbol of its entry; the
+// LR(0) construction is reached only if every nonterminal is the left-hand side of a rule and can derive a
+// terminal string, and generation stops with a message otherwise.
+//@ def assocOf(a PrecAssocType) = ite(a == LeftAssocType, symbol.LEFT, ite(a == RightAssocype, symbol.RIGHT, symbol.NONE))
+
+//@ func (*Walker).BuildLALR1
+//@ props_tagged_only C11 C04 C12
+//@ requires w != nil
+//@ may_panic "Check the nonterminal"
+//@ may_panic "Dected infinite loop"
+//@ may_panic "not generate root node"
+//@ before_stmt [C11] "g.InsertNewSymbol(dollar)" dollar.Value == -1 && dollar.Name == "$"
+//@ before_stmt [C11] "g.InsertNewSymbol(sy)" sy.Value == id.Value && sy.Name == id.Name && sy.Tag == id.Tag
+//@ before_stmt [C04] "g.InsertNewSymbol(sy)" id.IDTyp != NONTERMID && v.preMap[id.Name] != nil ==> sy.Prec == v.preMap[id.Name].Prec && sy.PrecType == assocOf(v.preMap[id.Name].AssocType)
+//@ before_stmt [C04] "g.InsertNewSymbol(sy)" id.IDTyp == NONTERMID || v.preMap[id.Name] == nil ==> sy.Prec == -1 && sy.PrecType == symbol.NONE
+//@ before_stmt [C04] "g.InsertNewRules(r)" (onerule.PrecIdSym != nil ==> r.PrecSymbol == g.SymbolsMap[onerule.PrecIdSym.Id.Name]) && (onerule.PrecIdSym == nil ==> r.PrecSymbol == nil)
+//@ before_stmt [C04] "g.InsertNewRules(r)" len(g.ProductoinRules) == 1 + idx2 && r.LeftPart == g.SymbolsMap[onerule.LeftPart.Name] && len(r.RighPart) == len(onerule.RighPart)
+//@ before_stmt [C04] "g.InsertNewRules(r)" forall k int :: 0 <= k && k < len(r.RighPart) ==> r.RighPart[k] == g.SymbolsMap[onerule.RighPart[k].Name]
+//@ loop 2: invariant [C04] len(g.ProductoinRules) == 1 + idx2
+//@ loop 3: invariant [C04] len(rightsyms) == idx3 && (forall k int :: 0 <= k && k < idx3 ==> rightsyms[k] == g.SymbolsMap[onerule.RighPart[k].Name])
+//@ loop 4: invariant [C12] forall i int :: 0 <= i && i < idx4 && g.Symbols[i].IsNonTerminator ==> has(g.VnSet, g.Symbols[i])
+//@ before_stmt [C12] "g.ResolveSymbols()" forall i int :: 0 <= i && i < len(g.Symbols) && g.Symbols[i].IsNonTerminator ==> has(g.VnSet, g.Symbols[i])
+//@ before_stmt [C12] "item_var := item.NewItem(0, 0)" forall s *symbol.Symbol :: has(g.VnSet, s) ==> s.CanTerminate
